@@ -210,6 +210,9 @@ def lookalikes(rep: Report) -> None:
 
 
 def run(rep: Report, rng, tier: str, known: dict, search: bool = False) -> None:
+    if not search:
+        from .c01 import deep_spellings
+        deep_spellings(rep)      # "a bare number is accepted for at most one variable" - also for expressions nested hundreds deep
     check_cases(gen_cases(rng, tier), rep, known)
 
 
